@@ -248,6 +248,9 @@ func (k *c14Worker) run(b *behJ, res *hlib.Result, mu *sync.Mutex, subNames []st
 	opKey := func(op opJ) string {
 		switch op.K {
 		case "setwrong":
+			if op.How == "id" {
+				return "setwrong-byid:" + k.wrong[op.Kind].Sig
+			}
 			return "setwrong:" + k.wrong[op.Kind].Sig
 		case "set", "update":
 			if op.N < 0 {
@@ -297,7 +300,11 @@ func (k *c14Worker) run(b *behJ, res *hlib.Result, mu *sync.Mutex, subNames []st
 			if !ok {
 				hlib.Fatal("unknown wrong kind %q", op.Kind)
 			}
-			real.Ret = errRet(bomb.SetProperty(value.String("delay"), value.Opaque(wv.Sig, toBytes(wv.Bytes))))
+			if op.How == "id" { // the property designated by its identifier: the same demands
+				real.Ret = errRet(bomb.SetProperty(value.Uint(delayID), value.Opaque(wv.Sig, toBytes(wv.Bytes))))
+			} else {
+				real.Ret = errRet(bomb.SetProperty(value.String("delay"), value.Opaque(wv.Sig, toBytes(wv.Bytes))))
+			}
 		case "update":
 			real.Ret = errRet(impl.helper.UpdateDelay(int32(op.N)))
 		case "sub":
